@@ -8,6 +8,7 @@ CONSTANTS
   MaxPert = 2
   Rounds = 24
   OwnConds <- OCTwo
+  Presets <- BNo
   GenSels <- BNo
   ScaleRevs <- BBoth
 INVARIANTS Emit
